@@ -55,6 +55,8 @@ def setup_part(pid, tier, rng, res, dist, only=None):
     cases = []
     for _ in range(ncases):
         c = kgraph.gen_graph_case(rng, max_n=6)
+        c.pop("idx_edges", None)  # (indexed uses / outputs belong to the K-graph cases; the reference below evaluates whole values)
+        c.pop("idx_out", None)
         c["debug"] = []
         c["call_tags"] = {}
         # tags: a UNIQUE tag may stand for its node among the inputs / outputs; a tag carried by several nodes is
